@@ -48,6 +48,7 @@ Definition used {A} (o : outcome A) (s : string) : outcome string := omap (fun _
 Definition field_text (f : dfield) : outcome string :=
   let v := df_val f in let s := df_fmt f in
   match df_dt f with
+  | OctetArray => used (get_oct v) s
   | Unsigned8 => used (get_u8 v) s
   | Unsigned16 => used (get_u16 v) s
   | Unsigned32 => used (get_u32 v) s
@@ -71,7 +72,7 @@ Definition field_text (f : dfield) : outcome string :=
 (* the data types whose value is printed (all others print a fixed notice instead) *)
 Definition printed_dt (d : dtype) : bool :=
   match d with
-  | Unsigned8 | Unsigned16 | Unsigned32 | Unsigned64 | Signed8 | Signed16 | Signed32 | Signed64
+  | OctetArray | Unsigned8 | Unsigned16 | Unsigned32 | Unsigned64 | Signed8 | Signed16 | Signed32 | Signed64
   | Float32 | Float64 | Boolean | DateTimeSeconds | DateTimeMilliseconds | MacAddress
   | Ipv4Address | Ipv6Address | String_ => true
   | _ => false
@@ -106,6 +107,9 @@ Definition render (m : msg) : outcome string :=
   | TemplateSet rs => Ok (header m ++ "TEMPLATE SET:" ++ nl ++ trecords 0 rs)
   | DataSet rs => do b <- drecords 0 rs; Ok (header m ++ "DATA SET:" ++ nl ++ b)
   end.
+
+Definition renders (m : msg) : bool := match render m with Ok _ => true | _ => false end.
+Definition entry_list (m : msg) : list string := match render m with Ok e => [e] | _ => [] end.
 
 (* ---------------------------------------------------------------- the store *)
 Definition store := list string.
